@@ -88,18 +88,24 @@ class Specialised:
         self.live = self._prune(fi.node.body)
 
     def _prune(self, stmts):
+        from .astutil import terminal
         out = []
         for st in stmts:
             if isinstance(st, ast.If):
                 v = const_value(st.test, self.env)
                 if v is UNKNOWN:
                     out.append(st)          # both branches stay live (walked through the If node)
-                elif v:
-                    out.extend(self._prune(st.body))
+                    if st.orelse and terminal(st.body) is not None and terminal(st.orelse) is not None:
+                        break
                 else:
-                    out.extend(self._prune(st.orelse))
+                    taken = self._prune(st.body if v else st.orelse)
+                    out.extend(taken)
+                    if taken and terminal(taken) is not None:
+                        break               # what follows is unreachable for these arguments
             else:
                 out.append(st)
+                if isinstance(st, (ast.Return, ast.Raise)):
+                    break
         return out
 
     def walk(self):
